@@ -373,7 +373,7 @@ func minimise(t *testing.T, sc *Scenario, in *WorkerIn, p *Plan, r *RunResult, s
 		os.Exit(2)
 	}
 	cur, curTape := p, tape
-	deadline := time.Now().Add(20 * time.Second)
+	deadline := time.Now().Add(8 * time.Second)
 	// 1. plan level
 	for changed := true; changed && time.Now().Before(deadline); {
 		changed = false
